@@ -153,6 +153,15 @@ def decide(pid, tier, seed, args):
         except Unsupported as e:
             undecided.append((key, "outside the supported subset: %s" % e))
             fn_info.append({"function": key, "sha256": fi.sha if fi else None, "undecided": str(e)})
+        except (RecursionError, MemoryError):
+            raise
+        except Exception as e:
+            # the executor itself failed.  On code identical to the baseline that is a checker bug (exit 3); on
+            # changed code it means the change left what the executor models: undecided, the stand-in decides
+            if fi is None or load_json(BASELINE, {}).get("_files") == repo.file_sha:
+                raise
+            undecided.append((key, "outside the supported subset: executor failed with %s: %s" % (type(e).__name__, e)))
+            fn_info.append({"function": key, "sha256": fi.sha, "undecided": "%s: %s" % (type(e).__name__, e)})
     # ---- extra obligation generators (regex etc.)
     for gen in prop.get("generators", []):
         try:
@@ -207,7 +216,7 @@ def decide(pid, tier, seed, args):
     vacuous = [c.name for c, r in zip(probes, pres) if r["verdict"] == "unsat"]
     return dict(prop=prop, V=V, repo=repo, vcs=vcs, results=results, obs=obs, undecided=undecided,
                 fn_info=fn_info, paths=paths, gen_s=gen_s, solve_wall=solve_wall, probes=len(probes),
-                vacuous=vacuous, contracts_hash=contracts_hash())
+                vacuous=vacuous, contracts_hash=contracts_hash(), file_sha=dict(repo.file_sha))
 
 
 def main(argv=None):
@@ -261,6 +270,10 @@ def run(pid, tier, seed, args, t0):
     standins = []
     for module, sid in prop.get("standins", []):
         standins.append(run_standin(module, sid, tier, seed))
+    if d["undecided"] and tier == "quick" and not any(s.get("failures") for s in standins):
+        # part of the deductive check is undecided (changed code left the subset): the bounded stand-in is all that
+        # can still decide, so give it its thorough bound
+        standins = [run_standin(module, sid, "thorough", seed) for module, sid in prop.get("standins", [])]
     # conformance of the ASSUMED library contracts with the installed libraries (a failure = checker error)
     conformance = run_standin("rt_conformance", pid, tier, seed)
     standin_fail = [(s["module"], f) for s in standins for f in s.get("failures", [])]
@@ -319,7 +332,9 @@ def run(pid, tier, seed, args, t0):
                 continue
         if o["status"] == "unknown":
             fn = name.split("#")[0]
-            same_code = all(base_sha.get(kf_) == sh for kf_, sh in fn_sha.items() if kf_.endswith(fn)) and \
+            # "same code" = no analysed source file differs from the baseline (a changed callee that is inlined
+            # changes the caller's obligations too) and the contracts are the baseline's
+            same_code = baseline.get("_files") == d["file_sha"] and \
                 baseline.get("_contracts_hash") == d["contracts_hash"]
             if not in_base:
                 # never proved on the unchanged tree: undecided, not a violation
@@ -409,6 +424,7 @@ def run(pid, tier, seed, args, t0):
         baseline[pid] = {n: o["status"] for n, o in obs.items()}
         baseline.setdefault("_functions", {}).update(fn_sha)
         baseline["_contracts_hash"] = d["contracts_hash"]
+        baseline["_files"] = d["file_sha"]
         os.makedirs(os.path.dirname(BASELINE), exist_ok=True)
         with open(BASELINE, "w") as f:
             json.dump(baseline, f, indent=1, sort_keys=True)
